@@ -8,7 +8,10 @@ TIER=${2:-quick}
 B=$VERIF_ROOT/.build/$ID.$$
 W=$VERIF_ROOT/.work/$ID.$$
 mkdir -p $B $W
-cleanup() { rm -rf "$B" "$W"; }
+# whatever still runs from this build (a program left spinning by a killed harness) goes with it
+reap() { for p in /proc/[0-9]*; do e=$(readlink "$p/exe" 2>/dev/null) || continue; case "$e" in "$B"/*) kill -9 "${p#/proc/}" 2>/dev/null;; esac; done; }
+cleanup() { reap; rm -rf "$B" "$W"; }
+trap 'exit 143' TERM INT
 trap cleanup EXIT
 mkwork $B/go.work
 export GOWORK=$B/go.work
